@@ -14,6 +14,8 @@ def run(tier):
     common.ext_type_sweep(rep, binary, PROP)
     # typed contents that are a bare number: every value of the number (all 256 / 65536) through the extension parsers
     common.site_sweep(rep, binary, PROP, keep=lambda s: s["fn"].startswith("parse_tls_extension") or s["fn"].endswith("_extension"))
+    # (growth) every length of the variable-size fields, not only the boundaries (MC_LenSweep)
+    common.len_sweep(rep, binary, PROP)
     return rep.finish("model_checking",
                       "cases = RFC encodings of ~90 typed extension values (26 types, boundary contents), the 16 GREASE points, "
                       "~37 unknown types, through the 3 dispatchers with suffixes; 16 tag parsers on own and foreign types; "
